@@ -51,6 +51,11 @@ func checkC16(c *Check) {
 			switch ci.Common().Method.Name() {
 			case "WriteHeader", "Write", "Flush":
 				return n, true
+			case "Before":
+				// a before-hook is a deferred write to whatever response is eventually sent
+				if namedName(ci.Common().Value.Type()) == "ResponseWriter" {
+					return n, true
+				}
 			}
 		}
 		if strings.HasPrefix(n, "fmt.Fprint") {
@@ -287,6 +292,22 @@ func checkC16(c *Check) {
 			isDir := edgesWhere(H, cBool(vCall("(io/fs.FileInfo).IsDir", vExtract(0, vIs(stat1)))), true)
 			g, _ := guardedBy(H, isDir, isInstr(e))
 			c.Cond(g && len(isDir) > 0, key+":redirect-directories-only", p.Pos(e.Pos()), "redirect only for directories", "a redirect can be sent for something that is not a directory")
+		}
+	}
+
+	// ---- R6 no memory between requests
+	c.Rule("R6", "E5 effects (shared engine of C05)", "the Static handler keeps no state between requests: what it does is a function of the request and the file system (no cache of earlier resolutions)", 1)
+	{
+		var lits []*ssa.Function
+		for _, l := range withLits(st)[1:] {
+			lits = append(lits, l)
+		}
+		fs := runEffects(lits, p.effectConfig())
+		for _, f := range fs {
+			c.Bad(p.FuncKey(f.Fn)+":"+f.Kind, p.Pos(f.Instr.Pos()), f.What+": the answer to a request depends on earlier requests (e.g. a directory is served without the redirect once its index was resolved)")
+		}
+		if len(fs) == 0 {
+			c.OK(p.FuncKey(st)+":stateless", p.FuncPos(st), "no store, map write or container mutation on state captured at construction", len(lits))
 		}
 	}
 
